@@ -1,8 +1,10 @@
 package gofakes3
 
 import (
+	"bytes"
 	"encoding/hex"
 	"io"
+	"io/ioutil"
 	"time"
 
 	"github.com/aws/aws-sdk-go/aws/awserr"
@@ -343,6 +345,18 @@ func CopyObject(db Backend, srcBucket, srcKey, dstBucket, dstKey string, meta ma
 		return
 	}
 	defer c.Contents.Close()
+
+	if srcBucket == dstBucket && srcKey == dstKey {
+		// The destination is the object being streamed: a backend that
+		// writes in place (s3afero truncates the file it is still reading
+		// from) would otherwise end up with an empty object, so detach the
+		// source contents from the storage first.
+		buf, rerr := ioutil.ReadAll(c.Contents)
+		if rerr != nil {
+			return result, rerr
+		}
+		c.Contents = ioutil.NopCloser(bytes.NewReader(buf))
+	}
 
 	_, err = db.PutObject(dstBucket, dstKey, meta, c.Contents, c.Size)
 	if err != nil {
